@@ -127,6 +127,7 @@ func c24Snapshot(t *testing.T, h *handler, mem *metadata.InMemoryStore, s3 *stor
 		sort.Strings(parts)
 		out["topic|"+name+"|meta"] = fmt.Sprintf("err=%d parts=%s", tp.ErrorCode, strings.Join(parts, ","))
 		if cfg, err := mem.FetchTopicConfig(ctx, name); err == nil {
+			cfg.CreatedAt = "" // a wall-clock timestamp (synthesised anew for default configs): not an observable
 			b, _ := det.Marshal(cfg)
 			out["topic|"+name+"|cfg"] = hex.EncodeToString(b)
 		}
@@ -618,6 +619,18 @@ func c24GenRule(r *vRand) c24Rule {
 	acts := []string{"produce", "fetch", "group_read", "group_write", "group_admin", "admin", "*", "Produce"}
 	ress := []string{"topic", "group", "cluster", "*", ""}
 	names := []string{"orders", "t1", "sneaky", "g1", "g2", "cluster", "*", "t*", "s*", "", "o*"}
+	if r.Chance(60) {
+		// a coherent rule (topic action on ONE topic name, group action on ONE group, admin on the
+		// cluster): gives principals partial permissions, hence mixed multi-item requests
+		switch r.Intn(3) {
+		case 0:
+			return c24Rule{A: []string{"produce", "fetch", "*"}[r.Intn(3)], R: "topic", N: []string{"orders", "t1", "sneaky", "t*"}[r.Intn(4)]}
+		case 1:
+			return c24Rule{A: []string{"group_read", "group_write", "group_admin", "*"}[r.Intn(4)], R: "group", N: []string{"g1", "g2"}[r.Intn(2)]}
+		default:
+			return c24Rule{A: "admin", R: "cluster", N: []string{"cluster", "*", ""}[r.Intn(3)]}
+		}
+	}
 	return c24Rule{A: acts[r.Intn(len(acts))], R: ress[r.Intn(len(ress))], N: names[r.Intn(len(names))]}
 }
 
